@@ -123,6 +123,12 @@ class C17(Prop):
             case["arr_default"] = T.qj(rng.choice([F(4096), F(4096), F(1)]))
         else:
             case["arr"], case["arr_default"] = None, None
+        if case["arr"] is not None and case["finish"] is not None and rng.random() < 0.6:
+            # boundary: a write lands exactly on finish_time
+            k = rng.randint(1, len(case["arr"]))
+            tot = T.fr(case["start"]) + sum(T.fr(x) for x in case["arr"][:k])
+            if tot > 0:
+                case["finish"] = T.qj(tot)
         if rng.random() < 0.6:
             sizes = [mss, mss, 2 * mss, 3 * mss, 4 * mss, mss // 2, mss + mss // 2, 1, 2 * mss + 1]
             if case["arr"] is not None:
@@ -401,6 +407,20 @@ class C17(Prop):
                     msgs.append(f"send-numbering: event {i}: next_seq {pre['ns']} -> {post['ns']} with {len(tx)} segments emitted")
                 if tx and post["ns"] - post["la"] > cw2:
                     msgs.append(f"send-guard: event {i}: next_seq - last_ack = {post['ns'] - post['la']} exceeds cwnd {cw2} after sending")
+                if is_app and case["siz"] is not None:
+                    # buffered data = what the application has written: send_buffer grows by exactly the writes taken in this resumption
+                    drawn = [(case["siz"][j] if j < len(case["siz"]) else case["siz_default"]) for j in range(pre["si"], post["si"])]
+                    if post["sb"] - pre["sb"] != sum(drawn):
+                        msgs.append(f"app-buffer: event {i}: send_buffer {pre['sb']} -> {post['sb']} although the application wrote {drawn}")
+                if is_app and case["arr"] is not None and post["sleep"] is not None and post["skind"] == 2 and post["ai"] > 0:
+                    # run() sleeps exactly until the next application write: last_arrival + the inter-write time just drawn
+                    j = post["ai"] - 1
+                    gap = T.fr(case["arr"][j] if j < len(case["arr"]) else case["arr_default"])
+                    if T.fr(post["sleep"]) != T.fr(post["last_arr"]) + gap:
+                        msgs.append(f"app-arrival-instant: event {i}: run() sleeps until {post['sleep']}, the next write is due at "
+                                    f"{T.fr(post['last_arr']) + gap} (last write {post['last_arr']}, inter-write time {gap})")
+                if is_app and ev[0] == "appwake" and pre["skind"] == 2 and T.fr(post["last_arr"]) != T.fr(e["t"]) and post["ai"] == pre["ai"]:
+                    msgs.append(f"app-arrival-instant: event {i}: write taken at {e['t']} but last_arrival is {post['last_arr']}")
                 if is_app:
                     stalls = (not post["fin"] and post["sleep"] is None and ns + mss <= pre["la"] + cw and ns + mss <= post["sb"])
                 else:
